@@ -998,6 +998,12 @@ class Interp:
                 if is_sym(k):
                     # lst[:k] for a symbolic k: CPython clamps (a negative k counts from the end)
                     return SymList(conc(Ite(I(k) >= 0, Min(obj.count, k), Max(I(obj.count) + I(k), 0))), obj.at)
+            if idx.stop is None and idx.step is None and idx.start is not None:
+                # lst[k:] / lst[-k:]: the tail (CPython clamping)
+                k = idx.start
+                n0, at0 = obj.count, obj.at
+                lo = conc(Ite(I(k) >= 0, Min(I(k), I(n0)), Max(I(n0) + I(k), 0)))
+                return SymList(conc(I(n0) - I(lo)), lambda j, at0=at0, lo=lo: at0(conc(I(lo) + I(j))))
             raise Unsupported("slice of a list of symbolic length")
         if isinstance(obj, SymList):
             k = idx
